@@ -276,6 +276,9 @@ Record Rep (a : acc) (s : state) : Prop := {
   rep_insts : forall w, find N.compare w (a_insts a) = get_inst s w;
   rep_nodes_sorted : sorted nkey_cmp (a_nodes a);
   rep_edges_sorted : sorted nkey_cmp (a_edges a);
+  rep_insts_sorted : sorted N.compare (a_insts a);
+  rep_natt_sorted : sorted akey_cmp (a_natt a);
+  rep_eatt_sorted : sorted akey_cmp (a_eatt a);
   rep_nodes : forall w n ty,
     find nkey_cmp (w, n) (a_nodes a) = Some ty <->
     exists st, get_store s w = Some st /\ find N.compare n (st_nodes st) = Some ty;
@@ -296,6 +299,9 @@ Proof.
   - apply a_insts_spec; exact W.
   - apply a_nodes_sorted.
   - apply a_edges_sorted.
+  - apply (of_list_set_sorted N.compare N_order).
+  - apply (of_list_set_sorted akey_cmp akey_order).
+  - apply (of_list_set_sorted akey_cmp akey_order).
   - apply a_nodes_spec; exact W.
   - apply a_natt_spec; exact W.
   - apply a_eatt_spec; exact W.
